@@ -319,6 +319,21 @@ func TestVerif_C19C08_UnionMemberKinds(t *testing.T) {
 		name string
 		f    func() error
 		ok   bool
+	}{"a union type as the root of the grammar", func() error {
+		p, err := participle.Build[r8Val](participle.Union[r8Val](&r8Plain{}, &r8Self{}))
+		if err != nil {
+			return err
+		}
+		v, err := p.ParseString("", "( a )")
+		if err == nil && v == nil {
+			return fmt.Errorf("nil AST")
+		}
+		return err
+	}, true})
+	cases = append(cases, struct {
+		name string
+		f    func() error
+		ok   bool
 	}{"a union with a member that is a slice of the union type itself", func() error {
 		_, err := participle.Build[r8Other](participle.Union[r8Self2](r8Leaf2{}, r8List2{}))
 		return err
